@@ -6,6 +6,7 @@ import concurrent.futures as cf
 import os
 
 import common
+import coq_robust
 from common import Check, run_impl, standard_proof_step, TRUSTED_COMMON, ROOT
 import genmodels as G
 from c01 import CONFIGS, NS_MAPS
@@ -103,7 +104,8 @@ def reader_correspondence(ck, fut):
     checks = {k: k for k in AGREE + ["oracle_handlers_agree", "oracle_et_agrees", "guard_handlers"]}
     checks["explained_F7"] = "fun x => negb (explained_by_union_decls x)"
     checks["explained_F1"] = "fun x => negb (et_models_differ x)"
-    bad = common.coq_bad_matrix("c08_reader", IMPORTS, "\n".join(defs), "rcase", checks, terms)
+    bad, cstats = coq_robust.matrix(ck, "c08_reader", IMPORTS, "\n".join(defs), "rcase", checks, terms, targets=["Model/ReaderCorr.vo"])
+    stats["coq_eval"] = cstats
 
     def rp(i):
         j, c = meta[i]
